@@ -1,6 +1,6 @@
 (* C05 property theorems: statements only, each closed by [exact]. *)
 From Coq Require Import NArith ZArith List Bool.
-From LV Require Import Lib.Bytes Wire.CompactSize Wire.Tx Model.C05 Proofs.C05.
+From LV Require Import Lib.Bytes Wire.CompactSize Wire.Tx Model.C05 Proofs.C05 Model.C05Cache Proofs.C05Cache.
 Import ListNotations.
 Local Open Scope N_scope.
 
@@ -85,6 +85,27 @@ Theorem C05_size : forall t, length (serialize t) = tx_size t.
 Proof. exact serialize_length. Qed.
 Print Assumptions C05_size.
 
+(* Serialisation caches of a Transaction object (_raw, _raw_outputs, id), for EVERY history of
+   add_inputs/add_outputs, _reset, raw reads and id reads that contains no in-place field edit:
+   raw is the serialisation of the fields held now and id its reversed double hash. *)
+Theorem C05_cache_reads_current : forall (sha256 : bytes -> bytes) t ops,
+  forallb (fun op => negb (is_edit op)) ops = true ->
+  let s := fst (crun sha256 (c_init t) ops) in
+  fst (read_raw s) = serialize (c_cur s) /\
+  fst (read_id sha256 s) = rev (sha256 (sha256 (serialize (c_cur s)))).
+Proof. exact reads_current_without_edits. Qed.
+Print Assumptions C05_cache_reads_current.
+
+(* ... and for EVERY history whatsoever (fields edited in place, other coroutines reading raw/id in
+   between, in any order) that ends with _reset(): this is the shape of Transaction.sign
+   (_reset; per input: await key, write signature in place; _reset) under any interleaving. *)
+Theorem C05_cache_reset_makes_current : forall (sha256 : bytes -> bytes) s ops,
+  let s' := fst (crun sha256 s (ops ++ [OReset])) in
+  fst (read_raw s') = serialize (c_cur s') /\
+  fst (read_id sha256 s') = rev (sha256 (sha256 (serialize (c_cur s')))).
+Proof. exact reset_makes_current. Qed.
+Print Assumptions C05_cache_reset_makes_current.
+
 (* non-vacuity: the hypotheses are inhabited, and concrete instances *)
 Example C05_ex_wf : wf_tx sample_tx /\ wf_wits sample_tx sample_wits.
 Proof. exact sample_wf. Qed.
@@ -102,6 +123,12 @@ Example C05_ex_reader_sound :
   N.of_nat (length raw) < MAXSIZE1 /\ deserialize raw = ROk p /\ p_ins p <> [] /\
   pser p = ROk (serialize sample_tx) /\ raw <> serialize sample_tx.
 Proof. exact sample_reader_sound_hyps. Qed.
+(* the trailing reset is needed: reset, an interleaved id read, a signature written in place, no
+   reset -> raw is the pre-signature serialisation *)
+Example C05_ex_sign_needs_final_reset :
+  let s' := fst (crun (fun b => b) (c_init sample_tx) [OReset; OReadId; OEdit sample_tx2]) in
+  fst (read_raw s') <> serialize (c_cur s').
+Proof. exact sign_without_final_reset_refuted. Qed.
 (* a transaction without inputs does NOT round-trip (its bytes start with the segwit marker):
    the reason wf_tx asks for an input *)
 Example C05_ex_no_input : deserialize (serialize no_input_tx) <> ROk (lift no_input_tx).
